@@ -9,12 +9,12 @@
 import os
 import vlib
 
-MODEL = {"quick": dict(MaxN=3, MaxN2=2, NegV=2, PosV=3, Sorted="TRUE"),
-         "thorough": dict(MaxN=4, MaxN2=3, NegV=2, PosV=3, Sorted="TRUE")}
-GEN = {"quick": dict(N1=4, N2=3, Thin2=8, PN=3, NW=4, ThinW=32, Thin3=0),
-       "thorough": dict(N1=5, N2=4, Thin2=6, PN=4, NW=4, ThinW=8, Thin3=60)}
+MODEL = {"quick": dict(MaxN=3, MaxN2=2, NegV=2, PosV=3, Sorted="TRUE", SmallSh=17),
+         "thorough": dict(MaxN=4, MaxN2=3, NegV=2, PosV=3, Sorted="TRUE", SmallSh=20)}
+GEN = {"quick": dict(N1=4, N2=3, Thin2=8, PN=3, NW=4, ThinW=32, Thin3=0, ThinS=4, Shifts="{17, 20}"),
+       "thorough": dict(N1=5, N2=4, Thin2=6, PN=4, NW=4, ThinW=8, Thin3=60, ThinS=1, Shifts="{14, 17, 20}")}
 INVS = ["InvAccept", "InvTight", "InvPost", "InvPostTight", "InvOrder", "InvAffine"]
-TRACE_CONST = dict(MaxN=0, MaxN2=0, NegV=0, PosV=0, Sorted="FALSE")
+TRACE_CONST = dict(MaxN=0, MaxN2=0, NegV=0, PosV=0, Sorted="FALSE", SmallSh=0)
 
 LIN_VARIANTS = [("std", 0, 1), ("nomean", 0, 1), ("nostd", 0, 1), ("none", 0, 1), ("maxabs", 0, 1), ("minmax", 0, 1),
                 ("minmax", -1, 1), ("minmax", 5, 10), ("minmax", 2, 2), ("minmax", -7, 3)]
@@ -87,13 +87,24 @@ def random_cases(ctx, count):
             X = [[off[j] + scale[j] * r.randint(-rng_, rng_) for j in range(p)] for _ in range(n)]
             Z = [[off[j] + scale[j] * r.randint(-rng_ - 2, rng_ + 2) for j in range(p)] for _ in range(m)]
             d.update({"ctor": r.choice(["named", "setter"]), "meth": r.choice(["pca", "zca", "chol"]), "p": p, "X": X, "Z": Z, "sel": _sel(r, n + m)})
+        # small units (exact division of a column by 2^sh): in three cases out of ten
+        pp = d["p"]
+        sh = [0] * pp
+        if r.random() < 0.3:
+            if kind == "lin":                       # columns are independent: any mixture of units
+                sh = [r.choice([0, 14, 17, 20]) for _ in range(pp)]
+            elif kind == "norm" or small or r.random() < 0.5 or any(abs(v) > 9 for row in d["X"] for v in row):
+                sh = [r.choice([14, 17, 20])] * pp  # one common unit (exact rescaling; the only choice for f32 / wide data)
+            else:                                   # one small-unit column next to unit columns (f64, lattice data)
+                sh[r.randrange(pp)] = 14
+        d["sh"] = sh
         out.append({"kind": kind, "inp": d})
     return out
 
 
 def nontrivial(case):
     """a case is non-trivial when it contains a degenerate or off-lattice situation named by the statement:
-    a constant or all-zero column, an all-zero row, an offset / badly scaled column, f32, or a transformed
+    a constant or all-zero column, an all-zero row, an offset / badly scaled / small-unit column, f32, or a transformed
     batch that is not the training matrix in its original order (unseen rows / non-empty selection)."""
     i = case["inp"]
     if case["kind"] == "empty":
@@ -103,7 +114,7 @@ def nontrivial(case):
     const = any(len(set(c)) == 1 for c in cols)
     zero_row = any(all(v == 0 for v in r) for r in X)
     wide = any(max(abs(v) for v in c) >= 100 for c in cols)
-    return const or zero_row or wide or i["ft"] == "f32" or bool(i["sel"])
+    return const or zero_row or wide or any(i.get("sh", [])) or i["ft"] == "f32" or bool(i["sel"])
 
 
 def run(ctx):
